@@ -135,10 +135,16 @@ PARAM_TYPES = {
     ("pyformlang.cfg.recursive_decent_parser.RecursiveDecentParser.__init__", "cfg"): [CFG],
     ("pyformlang.cfg.cyk_table.CYKTable.__init__", "cfg"): [CFG],
     ("pyformlang.finite_automaton.finite_automaton.add_start_state_to_graph", "graph"): ["extobj"],
+    # the graph handed to from_networkx is a networkx object (documented parameter)
+    ("pyformlang.finite_automaton.finite_automaton.FiniteAutomaton.from_networkx", "graph"): ["extobj"],
+    ("pyformlang.pda.pda.PDA.from_networkx", "graph"): ["extobj"],
+    ("pyformlang.fst.fst.FST.from_networkx", "graph"): ["extobj"],
     ("pyformlang.fst.fst.FST.intersection", "indexed_grammar"): [IG],
     ("pyformlang.fst.fst.FST.union", "other_fst"): [FST],
     ("pyformlang.fst.fst.FST.concatenate", "other_fst"): [FST],
     ("pyformlang.rsa.box.Box.__init__", "enfa"): [ENFA],
+    # annotated `State`, but the constructor converts with to_state(): callers pass raw values (0, "q0", ...)
+    (DFA + ".__init__", "start_state"): ["?"],
     (DFA + ".is_equivalent_to", "other"): [FABASE],
     (FABASE + ".is_equivalent_to", "other"): [FABASE],
     (DFA + "._is_equivalent_to_minimal", "self_minimal"): [DFA],
@@ -294,6 +300,9 @@ def install(interp):
             if fq.rsplit(".", 1)[-1].startswith("_") and not fq.endswith("__"):
                 continue
             raise AnalysisError("model: parameter %s of %s vanished" % (pname, fq))
+        if tys == ["?"]:
+            overrides[(fq, pname)] = AV()        # annotated with a class, but any raw value is accepted and converted
+            continue
         names = set()
         for ty in tys:
             if ty in prog.classes:
